@@ -12,6 +12,7 @@ import (
 
 	"github.com/DataDog/datadog-traceroute/common"
 
+	"verif/props/c03"
 	"verif/props/core"
 	"verif/props/proto"
 	"verif/shim/vtime"
@@ -358,6 +359,11 @@ func genWire(tier string) []proto.Item {
 			}
 		}
 	}
+	// a destination reply overrides a non-destination one for the same TTL: through the real drivers, on every schedule
+	for _, it := range c03.RouterThenDestination(700, 71) {
+		it.Class = "wire/" + it.Class
+		items = append(items, it)
+	}
 	return items
 }
 
@@ -366,7 +372,15 @@ var WF = &proto.Family{ID: "C07", Gen: genWire, SameAcrossSchedules: true, NoSec
 		if r.Obs[0].Err != nil {
 			return []proto.Issue{{Key: "run-error", Detail: r.Obs[0].Err.Error()}}
 		}
-		return proto.Completeness(&it.Scn, r, 0)
+		out := proto.Completeness(&it.Scn, r, 0)
+		if w := it.Note["want_len"]; w != "" {
+			var want int
+			fmt.Sscan(w, &want)
+			if hs := proto.Hops(r.Obs[0].Run); len(hs) != want || !hs[len(hs)-1].Dest {
+				out = append(out, proto.Issue{Key: "destination-reply-did-not-override", Detail: fmt.Sprintf("want %d entries ending in the destination, got %s", want, proto.HopsString(hs))})
+			}
+		}
+		return out
 	},
 	Bound: func(tier string) int {
 		if tier == "thorough" {
